@@ -167,6 +167,18 @@ func validateResponseHeader(headerName string, headerRef *openapi3.HeaderRef, in
 	var sm *openapi3.SerializationMethod
 	dec := &headerParamDecoder{header: input.Header}
 
+	if headerRef.Value.Schema == nil {
+		// The header is defined by "content": there is no style to decode by and no schema
+		// at this level, so only its presence can be checked.
+		if _, found = input.Header[http.CanonicalHeaderKey(headerName)]; !found && headerRef.Value.Required {
+			return &ResponseError{
+				Input:  input,
+				Reason: fmt.Sprintf("response header %q missing", headerName),
+			}
+		}
+		return nil
+	}
+
 	if sm, err = headerRef.Value.SerializationMethod(); err != nil {
 		return &ResponseError{
 			Input:  input,
